@@ -18,7 +18,7 @@ EXPLANATION = (
     "handler's implicit flush-at-capacity is overridden, so no captured record is dropped. " + T.SOUNDNESS)
 NOT_DECIDED = ("which bytes reach the real streams, logging filters and levels, contents of the failure report, nested "
                "execute_steps output attribution (runtime behaviour of file objects and the logging library)")
-TECHNIQUE = "static analysis: abstract interpretation of Step.run / Scenario.run with capture typestate monitors over all exits, exhaustive abstract exploration of CaptureController call sequences with stream identities, structural pairing rules on the log capture"
+TECHNIQUE = "static analysis: abstract interpretation of Step.run / Scenario.run with capture typestate monitors over all exits, exhaustive abstract exploration of CaptureController call sequences with stream identities, structural pairing rules on the log capture; static constant propagation of the string-level glue (the source interpreted on enumerated literal inputs, stdlib calls folded) against oracles written in the rule"
 
 
 def t_cap(chk, ix):
